@@ -150,8 +150,10 @@ def judge(payload, params):
             fails, info = observe_case(term, sp, res, params.get('deep', False))
             only = params.get('only_ex')
             if only:
-                fails = [(f, d) for f, d in fails if f not in ('exc', 'accepted') or d.get('observed') == only
-                         or only in d.get('expected_ex', ())]
+                fails = [(f, d) for f, d in fails
+                         if (f == 'crash' and only in res['ex'])
+                         or (f in ('exc', 'accepted') and (d.get('observed') == only or only in d.get('expected_ex', ())))
+                         or f not in ('exc', 'accepted', 'crash')]
             oc = info.get('outcome')
             stats['outcome:' + (oc if oc in ('ok', 'skipped', 'ok-ref-uncompilable') else 'raise')] += 1
             for facet, detail in fails:
